@@ -41,7 +41,8 @@ def required_cells(tier):
             "history>=200-once-skips", "db:no-directory-after-directory", "db:relative-directory",
             "stateful-option:same-compiler-twice", "stateful-option:different-values", "same-arguments-different-directory",
             "class:U-unresolvable-includes", "header-missing-for-one-command-found-by-another", "unknown-compiler-after-known-one",
-            "member-header-shared-by-fortran-and-c", "cross-command:push-pop-pragmas", "cross-command:unevaluable-condition-in-another-platform"]
+            "member-header-shared-by-fortran-and-c", "cross-command:push-pop-pragmas", "cross-command:unevaluable-condition-in-another-platform",
+            "cross-command:forced-once-header-with-identical-options", "cli:-p-with-platform-names-differing-in-case"]
 
 
 def gen_case(rng):
@@ -316,6 +317,12 @@ def check_cross_command_scenarios(ctx, base):
                "util.c": "#pragma pop_macro(\"TRACE\")\n#ifdef TRACE\nint util_traced;\nint util_traced2;\n#else\nint util_quiet;\n#endif\n",
                "other.c": "#pragma pop_macro(\"TRACE\")\n#pragma push_macro(\"TRACE\")\n#if TRACE == 1\nint o1;\n#endif\n"},
               [("hot_loop.c", "p", ["TRACE=1"]), ("util.c", "p", []), ("other.c", "q", ["TRACE=1"]), ("util.c", "q", [])]),
+        # O  a forced header with #pragma once that the sources include as well, and whose text is not idempotent: each of
+        #    two commands with IDENTICAL options reads it exactly once
+        "O": ({"config.h": "#pragma once\n#ifdef SEEN\n#define TWICE 1\nint twice_line;\n#endif\n#define SEEN 1\nint cfg;\n",
+               "a.c": "#include \"config.h\"\n#ifdef TWICE\nint a_twice;\n#else\nint a_once;\n#endif\n",
+               "b.c": "#include \"config.h\"\n#ifdef TWICE\nint b_twice;\n#else\nint b_once;\n#endif\n#include \"config.h\"\n"},
+              [("a.c", "p", [], ["config.h"]), ("b.c", "p", [], ["config.h"]), ("a.c", "q", [], ["config.h"])]),
         "U": ({"version.h": "#if API_LEVEL >= 2\nint v2;\n#else\nint v1;\n#endif\n",
                "modern.c": "#include \"version.h\"\n#if API_LEVEL >= 2\nint m2;\nint m2b;\n#else\nint m1;\n#endif\n",
                "legacy.c": "#include \"version.h\"\nint legacy;\n"},
@@ -332,8 +339,9 @@ def check_cross_command_scenarios(ctx, base):
         def run(sel):
             cb = CodeBase(root)
             conf = {}
-            for fn, p, defs in sel:
-                conf.setdefault(p, []).append({"file": os.path.join(root, fn), "defines": list(defs), "include_paths": [root], "include_files": []})
+            for fn, p, defs, *forced in sel:
+                conf.setdefault(p, []).append({"file": os.path.join(root, fn), "defines": list(defs), "include_paths": [root],
+                                               "include_files": [os.path.join(root, f_) for f_ in (forced[0] if forced else [])]})
             st = finder.find(root, cb, conf, show_progress=False)
             res = {}
             for rel in files:
@@ -345,8 +353,8 @@ def check_cross_command_scenarios(ctx, base):
             return {rel: sorted(ln for ln, ps in lines.items() if plat in ps) for rel, lines in res.items()}
 
         problems = []
-        cells = {"cross-command:" + ("push-pop-pragmas" if name == "P" else "unevaluable-condition-in-another-platform")}
-        plats = sorted({p for _, p, _ in cmds})
+        cells = {"cross-command:" + {"P": "push-pop-pragmas", "U": "unevaluable-condition-in-another-platform", "O": "forced-once-header-with-identical-options"}[name]}
+        plats = sorted({c[1] for c in cmds})
         alone = {}
         for p in plats:
             try:
@@ -368,11 +376,63 @@ def check_cross_command_scenarios(ctx, base):
                 if got != alone[p]:
                     problems.append({"kind": "lines of a platform differ from those it gets when analysed alone", "platform": p,
                                      "order": [c[0] + ":" + c[1] for c in order], "alone": alone[p], "together": got})
+        if name == "O":
+            # the platform's result is the union of its commands analysed alone
+            try:
+                singles = [part(run([c]), c[1]) for c in cmds if c[1] == "p"]
+                union_ = {rel: sorted(set().union(*[set(s_[rel]) for s_ in singles])) for rel in files}
+                if not isinstance(alone["p"], str) and union_ != alone["p"]:
+                    problems.append({"kind": "platform result differs from the union of its commands analysed alone", "union": union_, "together": alone["p"]})
+            except Exception as e:
+                problems.append({"kind": "exception", "observed": f"{type(e).__name__}: {e}"})
         case = {"stateful": True, "scenario": "cross-command-" + name}
         if problems:
             acc.violated({"input": case, "witness": {"files": files, "commands": cmds, "problems": problems[:3]}}, cells=cells, cls="S")
         else:
             acc.held(cells=cells, cls="S", nontrivial=case)
+
+
+def check_case_variant_platform_names_cli(ctx, base):
+    """[platform.cpu] and [platform.CPU] in one analysis file (the documentation says they are two platforms):
+    `codebasin -p cpu` is the projection of the full result on `cpu`, `-p CPU` the one on `CPU`."""
+    acc = ctx.acc
+    shutil.rmtree(base, ignore_errors=True)
+    root = os.path.join(base, "root")
+    os.makedirs(root)
+    files = {"a.c": "#ifdef LOWER\nint lo;\nint lo2;\n#endif\n#ifdef UPPER\nint up;\n#endif\nint both;\n", "b.c": "int unused;\n"}
+    for rel, text in files.items():
+        with open(os.path.join(root, rel), "w") as f:
+            f.write(text)
+    for p, d in (("cpu", "LOWER"), ("CPU", "UPPER"), ("Cpu", "MIXED")):
+        with open(os.path.join(root, "db-" + "".join("u" if ch.isupper() else "l" for ch in p) + ".json"), "w") as f:
+            json.dump([{"file": "a.c", "directory": root, "arguments": ["gcc", "-D" + d, "-c", "a.c"]}], f)
+    with open(os.path.join(root, "analysis.toml"), "w") as f:
+        for p in ("cpu", "CPU", "Cpu"):
+            f.write('[platform.%s]\ncommands = "db-%s.json"\n\n' % (p, "".join("u" if ch.isupper() else "l" for ch in p)))
+    results = {}
+    problems = []
+    for sel in ([], ["cpu"], ["CPU"], ["Cpu", "cpu"]):
+        dump = os.path.join(base, "dump.json")
+        rc, out, err = cli.run("codebasin", ["-R", "summary"] + [x for p in sel for x in ("-p", p)] + ["analysis.toml"], root, launch={"dump": dump})
+        acc.hook("find")
+        if rc != 0:
+            problems.append({"kind": "cli failed", "selection": sel, "stderr": err[-300:]})
+            continue
+        d = json.load(open(dump))
+        results[tuple(sel)] = {os.path.relpath(fn, os.path.realpath(root)): {ln: sorted(ps) for ln, ps in per.items()} for fn, per in d["attribution"].items()}
+    full = results.get(())
+    if full is not None:
+        for sel, res in results.items():
+            if not sel:
+                continue
+            want = {rel: {ln: [p for p in ps if p in sel] for ln, ps in per.items()} for rel, per in full.items()}
+            if {r: {l: sorted(v) for l, v in per.items()} for r, per in res.items()} != {r: {l: sorted(v) for l, v in per.items()} for r, per in want.items()}:
+                problems.append({"kind": "-p is not the projection of the full result", "selection": list(sel), "expected": want.get("a.c"), "observed": res.get("a.c")})
+    cells = {"cli:-p-with-platform-names-differing-in-case"}
+    if problems:
+        acc.violated({"input": {"stateful": True, "scenario": "case-variant -p"}, "witness": {"files": files, "problems": problems[:3]}}, cells=cells, cls="S")
+    else:
+        acc.held(cells=cells, cls="S", nontrivial={"scenario": "case-variant -p"})
 
 
 def check_same_arguments_other_directory(ctx, rng, base):
@@ -678,6 +738,8 @@ def run_shard(ctx):
         check_mixed_language_member(ctx, base)
     if ctx.shard == 1 % ctx.nshards:
         check_cross_command_scenarios(ctx, base)
+    if ctx.shard == 2 % ctx.nshards:
+        check_case_variant_platform_names_cli(ctx, base)
     rng = ctx.rng("stateful")
     for i in range(b["stateful"]):
         import random as _r
